@@ -265,6 +265,11 @@ def failure_points(plan, recon):
                         or "<abstracttype" in line:
                     n += 1
                     pts.append({"badxml": [key, i, (n + rot) % 3]})
+                if "<import " in line and line.rstrip().endswith("/>"):
+                    # an <import> element that is not empty: the parse fails
+                    # between its start tag and its end tag
+                    n += 1
+                    pts.append({"badimport": [key, i, (n + rot) % 3]})
     return pts
 
 
@@ -295,6 +300,15 @@ def apply_point(plan, store, pt):
         st = dict(store)
         st.pop(pt["missing"], None)
         return st, [], "pkg-missing-component"
+    if "badimport" in pt:
+        key, i, variant = pt["badimport"]
+        st = dict(store)
+        lines = store[key].splitlines()
+        body = ["stray text", "<description>d</description>",
+                "<bogus-element/>"][variant]
+        lines[i] = lines[i].rstrip()[:-2] + ">" + body + "</import>"
+        st[key] = "\n".join(lines) + "\n"
+        return st, [], "schema-nonempty-import"
     if "badxml" in pt:
         key, i, variant = pt["badxml"]
         st = dict(store)
